@@ -370,3 +370,10 @@ Proof.
   pose proof (flat_unflat c _ o _ Hwf E [] [] []) as H. unfold r_ns, r_ls in H. cbn [fst snd] in H.
   rewrite !app_nil_r in H. exact H.
 Qed.
+
+Theorem reflatten c o o' ls sp :
+  wf_obj o = true -> flatten c o = Ok (ls, sp) -> unflatten sp ls = Ok o' ->
+  flatten c o' = Ok (ls, sp).
+Proof.
+  intros Hwf Hf Hu. rewrite (unflatten_flatten c o ls sp Hwf Hf) in Hu. injection Hu as <-. exact Hf.
+Qed.
